@@ -858,3 +858,121 @@ Section Inv.
     unfold accepts. rewrite rev_involutive, JL. reflexivity.
   Qed.
 End Inv.
+
+(** ** 8. The coarser grain replayed by the correspondence is covered by the theorems:
+    a [macro] step is a sequence of micro-steps *)
+Lemma macro_reachable cf s t s' : macro cf s t = Some s' -> reachable (step cf) s s'.
+Proof.
+  unfold macro. destruct (step cf s t) as [s1|] eqn:E1; [|discriminate].
+  assert (R1 : reachable (step cf) s s1) by (eapply reach_step; [constructor|eauto]).
+  assert (M : forall x, reachable (step cf) s x ->
+                        reachable (step cf) s
+                          (if is_read (t_pc (th x t))
+                           then match step cf x t with Some y => y | None => x end
+                           else x)).
+  { intros x R. destruct (is_read (t_pc (th x t))); auto.
+    destruct (step cf x t) eqn:E; auto. eapply reach_step; eauto. }
+  destruct (Nat.eqb t (term_tid cf)); intro H; inversion H; subst; clear H;
+    [exact R1 | cbv zeta; apply M; apply M; exact R1].
+Qed.
+
+Lemma run_macro_reachable cf s0 sch :
+  reachable (step cf) s0 (run_sched (macro cf) s0 sch).
+Proof.
+  assert (K : forall s, reachable (step cf) s0 s ->
+                        reachable (step cf) s0 (run_sched (macro cf) s sch)).
+  { induction sch as [|t sch IH]; intros s R; cbn; auto.
+    destruct (macro cf s t) as [s1|] eqn:E; auto. apply IH.
+    eapply reachable_trans; [exact R|]. eapply macro_reachable; eauto. }
+  apply K. constructor.
+Qed.
+
+Lemma in_bodyb_spec s t : in_bodyb s t = true <-> in_body s t.
+Proof.
+  unfold in_bodyb, in_body. destruct (t_stack (th s t)); split; congruence.
+Qed.
+
+(** ** 9. The second [with] item is needed: with ONE item the hand-over races *)
+
+Definition procs10 (t : nat) : nat := if Nat.eqb t 10 then 10 else 0.
+Definition cf_single : cfg := {| proc := procs10; single := true; term_tid := 0 |}.
+Definition cf_double : cfg := {| proc := procs10; single := false; term_tid := 0 |}.
+
+(** thread 1 starts a child process, threads 2 and 3 call a synchronized function *)
+Definition race_prog (t : nat) : list cmd :=
+  match t with
+  | 1 => [CStart 10]
+  | 2 => [CCall 0 false]
+  | 3 => [CCall 0 false]
+  | _ => []
+  end.
+
+(** 1 takes the thread lock; 2 reads the global (still the thread lock) and waits for
+    it; 1 swaps the global and releases; 2 gets the OLD lock; 3 reads the global (the
+    new lock), gets it: both are in *)
+Definition race_sched : list nat := [1; 1; 1; 2; 2; 1; 1; 1; 2; 3; 3; 3].
+
+Lemma second_acquire_needed_refuted_lemma :
+  exists cf prog sch t1 t2,
+    single cf = true /\ t1 <> t2 /\
+    let s := run_sched (step cf) (init prog) sch in in_body s t1 /\ in_body s t2.
+Proof.
+  exists cf_single, race_prog, race_sched, 2, 3.
+  split; [reflexivity|]. split; [discriminate|].
+  split; apply in_bodyb_spec; vm_compute; reflexivity.
+Qed.
+
+(** the same schedule, continued, on the real (two-item) wrapper: 2 takes the old lock,
+    reads the global AGAIN and has to wait for the new lock, which 3 took first; 3 is
+    alone in the body *)
+Example handover_with_two_items :
+  let s := run_sched (step cf_double) (init race_prog) (race_sched ++ [2; 2; 3; 3]) in
+  t_stack (th s 3) = [(LM, LM)] /\ in_bodyb s 2 = false /\ t_pc (th s 2) = PAcq2 LT LM
+  /\ step cf_double s 2 = None /\ cur s 0 = LM.
+Proof. vm_compute. repeat split; reflexivity. Qed.
+
+(** ** 10. Non-vacuity *)
+
+Definition two_calls (t : nat) : list cmd :=
+  match t with 1 | 2 => [CCall 0 false] | _ => [] end.
+
+(** a reachable state with a thread inside a body while another one waits for the lock *)
+Example body_while_other_waits :
+  let s := run_sched (step cf_double) (init two_calls) [1; 1; 1; 1; 1; 2; 2] in
+  reachable (step cf_double) (init two_calls) s
+  /\ in_bodyb s 1 = true /\ t_pc (th s 2) = PAcq1 LT /\ step cf_double s 2 = None.
+Proof.
+  split; [apply run_sched_reachable|]. vm_compute. repeat split; reflexivity.
+Qed.
+
+Definition start_and_call (t : nat) : list cmd :=
+  match t with 1 => [CStart 10] | 2 => [CCall 0 false] | _ => [] end.
+
+(** the swap [LT -> LM] happens while thread 2 waits on [LT]; afterwards 2 takes the old
+    and then the new lock *)
+Example swap_while_other_waits :
+  let a := run_sched (step cf_double) (init start_and_call) [1; 1; 1; 2; 2; 1] in
+  let b := run_sched (step cf_double) a [1] in
+  let c := run_sched (step cf_double) b [1; 2; 2; 2] in
+  reachable (step cf_double) (init start_and_call) c
+  /\ t_pc (th a 1) = SSwap 10 LT /\ cur a 0 = LT
+  /\ t_pc (th a 2) = PAcq1 LT /\ step cf_double a 2 = None
+  /\ cur b 0 = LM /\ t_pc (th b 2) = PAcq1 LT /\ step cf_double b 2 = None
+  /\ t_stack (th c 2) = [(LT, LM)].
+Proof.
+  split.
+  - eapply reachable_trans; [|apply run_sched_reachable].
+    eapply reachable_trans; [|apply run_sched_reachable]. apply run_sched_reachable.
+  - vm_compute. repeat split; reflexivity.
+Qed.
+
+(** a re-entrant call with a terminal round trip, run to completion: the reply is read *)
+Definition nested_query (t : nat) : list cmd :=
+  match t with 1 => [CCall 1 true] | _ => [] end.
+
+Example nested_query_runs :
+  let s := run_sched (step cf_double) (init nested_query)
+                     (repeat 1 12 ++ [0] ++ repeat 1 10) in
+  In (1, EReply 1 0) (log s) /\ in_bodyb s 1 = false /\ t_pc (th s 1) = PIdle
+  /\ count (lkT s) = 0.
+Proof. vm_compute. intuition. Qed.
